@@ -558,7 +558,7 @@ fn random_graph(r: &mut Rng, thorough: bool) -> Case {
     if !luau && r.chance(1, 4) {
         mode.mfn = r.pick(&["index", "mod"]).to_string();
     }
-    let project = r.pick(&["p", "p", "work/proj", "/abs/p"]).to_string();
+    let project = r.pick(&["p", "p", "work/proj", "/abs/p", ""]).to_string();
     if r.chance(2, 3) {
         mode.sources.insert("@pkg".into(), "./pkg".into());
         if !luau && r.bool() {
